@@ -15,6 +15,7 @@ PROPERTY_MODULES.update({
     "C13": "contracts.C13_gradients",
     "C14": "contracts.C14_toys",
     "C17": "contracts.C17_patchset",
+    "C18": "contracts.C18_roundtrip",
     "C19": "contracts.C19_cli",
     "C20": "contracts.C20_refusal",
 })
